@@ -104,9 +104,23 @@ def make(cfg_in):
                     if entry == 'ed_join':
                         Lf = pdmodel.FakeFrame(lrows, columns=cols)
                         Rf = pdmodel.FakeFrame(rrows, columns=cols)
-                        out = repo.mod('').edit_distance_join(
-                            Lf, Rf, 'id', 'id', 'attr', 'attr', tau, op, s['allow_missing'], None, None,
-                            'l_', 'r_', s['out_sim_score'], s['n_jobs'], False, tok)
+                        if cfg.get('default_tok'):
+                            # the default q-gram tokenizer object shared by all calls that omit the argument
+                            ed_mod = repo.mod('join.edit_distance_join')
+                            shared = [ed_mod.edit_distance_join.__defaults__[-1],
+                                      repo.mod('join.edit_distance_join_py').edit_distance_join_py.__defaults__[-1]]
+                            before = [(t.get_return_set(), t.qval, t.padding) for t in shared]
+                            out = repo.mod('').edit_distance_join(
+                                Lf, Rf, 'id', 'id', 'attr', 'attr', tau, op, s['allow_missing'], None, None,
+                                'l_', 'r_', s['out_sim_score'], s['n_jobs'], False)
+                            after = [(t.get_return_set(), t.qval, t.padding) for t in shared]
+                            if before != after or before[0] != (False, 2, True):
+                                viols.append(('C12', 'default-tokenizer', 'the shared default tokenizer changed: %r -> %r'
+                                              % (before, after)))
+                        else:
+                            out = repo.mod('').edit_distance_join(
+                                Lf, Rf, 'id', 'id', 'attr', 'attr', tau, op, s['allow_missing'], None, None,
+                                'l_', 'r_', s['out_sim_score'], s['n_jobs'], False, tok)
                         off = 1
                     else:
                         lr = [r for r in lrows if r[1] is not None]
@@ -163,6 +177,11 @@ def make(cfg_in):
                                 if ref.OPS[op](d, tau) and shares(lv, rv):
                                     viols.append(('C03', 'complete', 'pair %r satisfies %s %d and shares a '
                                                   'q-gram but is absent' % (pk, op, tau)))
+                                elif padding and ref.OPS[op](d, tau) and \
+                                        max(len(lv), len(rv)) >= q * tau - q + 2:
+                                    viols.append(('C03', 'corollary', 'padding on, pair %r satisfies %s %d and '
+                                                  'max length %d >= q*tau-q+2 = %d but is absent'
+                                                  % (pk, op, tau, max(len(lv), len(rv)), q * tau - q + 2)))
                     if tok.get_return_set() != rs:
                         viols.append(('C12', 'tokenizer-restored', 'tokenizer return_set %r after the call, was %r'
                                       % (tok.get_return_set(), rs)))
